@@ -23,7 +23,7 @@ ASSUMPTIONS = [
     "'discarded' for prune/expand/replace-with-deletion = nodes reachable from the operated root before but not after",
     "attach and replace without deletion do not change the registry",
 ]
-REQUIRED = ["op:create", "op:copy", "op:from_xml", "op:from_json", "op:attach", "op:replace_delete", "op:replace_keep", "op:prune",
+REQUIRED = ["documents_closed_and_reopened", "op:create", "op:copy", "op:from_xml", "op:from_json", "op:attach", "op:replace_delete", "op:replace_keep", "op:prune",
             "op:prune_strict", "op:expand", "op:delete", "op:delete_keep_children", "op:forget", "op:replace_rejected", "id_stress_nodes", "ops_discarding", "ops_creating"]
 EXHAUSTIVE = {"quick": False, "thorough": False}
 
@@ -168,7 +168,7 @@ def one_history(ctx, gen, hno):
     for step in range(60):
         before = dict(Node.store)
         ops = ["create", "create", "copy", "from_xml", "from_json", "attach", "replace_delete", "replace_keep", "prune", "prune_strict",
-               "expand", "delete", "delete_keep_children", "forget", "replace_rejected"]
+               "expand", "delete", "delete_keep_children", "forget", "replace_rejected", "close_and_reopen"]
         op = rng.choice(ops)
         if live_count() > 200:
             op = "delete"
@@ -198,6 +198,26 @@ def one_history(ctx, gen, hno):
                 t = metapype_io.from_xml(doc)
                 mon.check(op, before, snapshot.walk(t), [], wit)
                 held.append(t)
+            elif op == "close_and_reopen" and held:
+                # a document is saved, closed (deleted by its root id) and opened again from the saved text: the ids are the same as
+                # before, no two live nodes ever share one; closing it a second time removes every node again
+                i = rng.randrange(len(held))
+                r = held.pop(i)
+                if r.parent is not None or len({n.id for n in snapshot.walk(r)}) != len(snapshot.walk(r)):
+                    held.append(r)
+                    continue
+                text = metapype_io.to_json(r)
+                history.append([op, len(snapshot.walk(r))])
+                for round_no in range(2):
+                    before = dict(Node.store)
+                    gone = snapshot.walk(r)
+                    Node.delete_node_instance(r.id)
+                    mon.check("delete", before, [], gone, wit)
+                    before = dict(Node.store)
+                    r = metapype_io.from_json(text)
+                    mon.check("from_json", before, snapshot.walk(r), [], wit)
+                ctx.count("documents_closed_and_reopened")
+                held.append(r)
             elif op == "from_json" and held:
                 text = fresh_json(rng.choice(held))
                 history.append(["from_json", text if len(text) < 2000 else text[:2000] + "..."])
